@@ -305,6 +305,12 @@ func (r *resolver) ResolveType(t *parser.Type) (err error) {
 // included IDL or -1 if the enum is defined in the given AST.
 // When such an enum is not found, getEnum returns (nil, -1).
 func getEnum(ast *parser.Thrift, name string) (enum *parser.Enum, includeIndex int32) {
+	return doGetEnum(ast, name, make(map[*parser.Typedef]bool))
+}
+
+// doGetEnum implements getEnum. The visited set stops the search on a typedef cycle,
+// which is reported later by ResolveTypedefs.
+func doGetEnum(ast *parser.Thrift, name string, visited map[*parser.Typedef]bool) (enum *parser.Enum, includeIndex int32) {
 	c, exist := ast.Name2Category[name]
 	if !exist {
 		return nil, -1
@@ -320,13 +326,17 @@ func getEnum(ast *parser.Thrift, name string) (enum *parser.Enum, includeIndex i
 		if x, ok := ast.GetTypedef(name); !ok {
 			panic(fmt.Errorf("expect %q to be an typedef in %q, not found", name, ast.Filename))
 		} else {
+			if visited[x] {
+				return nil, -1
+			}
+			visited[x] = true
 			if r := x.Type.Reference; r != nil {
-				e, _ := getEnum(ast.Includes[r.Index].Reference, r.Name)
+				e, _ := doGetEnum(ast.Includes[r.Index].Reference, r.Name, visited)
 				if e != nil {
 					return e, r.Index
 				}
 			}
-			return getEnum(ast, x.Type.Name)
+			return doGetEnum(ast, x.Type.Name, visited)
 		}
 	}
 	return nil, -1
